@@ -97,7 +97,7 @@ var (
 )
 
 func genDevs(r *rand.Rand, tag string) value {
-	n := r.Intn(4)
+	n := []int{0, 1, 1, 1, 2, 2, 3}[r.Intn(7)]
 	v := value{Kind: "dev", OK: true, Devs: []devV{}}
 	var elems []string
 	for i := 0; i < n; i++ {
@@ -114,7 +114,7 @@ func genDevs(r *rand.Rand, tag string) value {
 }
 
 func genCDI(r *rand.Rand, tag string) value {
-	n := r.Intn(4)
+	n := []int{0, 1, 1, 1, 2, 2, 3}[r.Intn(7)]
 	v := value{Kind: "cdi", OK: true, CDI: []string{}}
 	var elems []string
 	for i := 0; i < n; i++ {
@@ -127,7 +127,7 @@ func genCDI(r *rand.Rand, tag string) value {
 }
 
 func genMnts(r *rand.Rand, tag string) value {
-	n := r.Intn(4)
+	n := []int{0, 1, 1, 1, 2, 2, 3}[r.Intn(7)]
 	v := value{Kind: "mnt", OK: true, Mnts: []mntV{}}
 	var elems []string
 	for i := 0; i < n; i++ {
@@ -535,10 +535,27 @@ func (v value) coqPayload() string {
 	return "(Some " + coqfmt.List(l) + ")"
 }
 
-// tables: value text -> payload, one table per kind.  Two keys of one kind may carry the same text only
-// with the same meaning (the text determines the payload); a text generated both as a payload and as a
-// malformed value cannot occur (malformed texts never parse as lists).
-func (cs *injCase) table(kind string) string {
+// Each distinct annotation text is bound once (let vN := "…" in …) and used both in the annotation map and
+// in the decoding tables: the case files are dominated by the cost of parsing string literals.
+type binder struct {
+	names map[string]string
+	lets  []string
+}
+
+func (b *binder) ref(text string) string {
+	if n, ok := b.names[text]; ok {
+		return n
+	}
+	n := fmt.Sprintf("v%d", len(b.names))
+	b.names[text] = n
+	b.lets = append(b.lets, fmt.Sprintf("let %s := %s in", n, coqfmt.Str(text)))
+	return n
+}
+
+// table: value text -> payload, one table per kind.  The text determines the payload (a text is generated
+// either as the rendering of one payload or as a malformed value, never both: malformed texts never parse
+// as lists, empty renderings all mean the empty list).
+func (cs *injCase) table(b *binder, kind string) string {
 	keys := []string{}
 	for k := range cs.Values {
 		keys = append(keys, k)
@@ -552,7 +569,7 @@ func (cs *injCase) table(kind string) string {
 			continue
 		}
 		seen[v.Text] = true
-		out = append(out, coqfmt.Pair(coqfmt.Str(v.Text), v.coqPayload()))
+		out = append(out, coqfmt.Pair(b.ref(v.Text), v.coqPayload()))
 	}
 	return coqfmt.List(out)
 }
@@ -562,12 +579,25 @@ func (cs *injCase) coq() string {
 	if cs.OK {
 		res = "(Some " + cs.Adj.coq() + ")"
 	}
-	if cs.Plugin == "device-injector" {
-		return fmt.Sprintf("{| ic_ctr := %s; ic_ann := %s; ic_dev := %s; ic_cdi := %s; ic_mnt := %s; ic_result := %s; ic_rest_empty := %s |}",
-			coqfmt.Str(cs.Ctr), coqfmt.StrMap(cs.Ann, nil), cs.table("dev"), cs.table("cdi"), cs.table("mnt"), res, coqfmt.Bool(!cs.OK || cs.Adj.Rest))
+	b := &binder{names: map[string]string{}}
+	keys := []string{}
+	for k := range cs.Ann {
+		keys = append(keys, k)
 	}
-	return fmt.Sprintf("{| uc_ctr := %s; uc_ann := %s; uc_ul := %s; uc_result := %s; uc_rest_empty := %s |}",
-		coqfmt.Str(cs.Ctr), coqfmt.StrMap(cs.Ann, nil), cs.table("ul"), res, coqfmt.Bool(!cs.OK || cs.Adj.Rest))
+	sort.Strings(keys)
+	var ann []string
+	for _, k := range keys {
+		ann = append(ann, coqfmt.Pair(coqfmt.Str(k), b.ref(cs.Ann[k])))
+	}
+	var body string
+	if cs.Plugin == "device-injector" {
+		body = fmt.Sprintf("{| ic_ctr := %s; ic_ann := %s; ic_dev := %s; ic_cdi := %s; ic_mnt := %s; ic_result := %s; ic_rest_empty := %s |}",
+			coqfmt.Str(cs.Ctr), coqfmt.List(ann), cs.table(b, "dev"), cs.table(b, "cdi"), cs.table(b, "mnt"), res, coqfmt.Bool(!cs.OK || cs.Adj.Rest))
+	} else {
+		body = fmt.Sprintf("{| uc_ctr := %s; uc_ann := %s; uc_ul := %s; uc_result := %s; uc_rest_empty := %s |}",
+			coqfmt.Str(cs.Ctr), coqfmt.List(ann), cs.table(b, "ul"), res, coqfmt.Bool(!cs.OK || cs.Adj.Rest))
+	}
+	return "(" + strings.Join(b.lets, " ") + " " + body + ")"
 }
 
 // ---------------------------------------------------------------- running
@@ -726,12 +756,12 @@ func driveInjectors(c *hx.Ctx) error {
 		n            int
 	}
 	streams := []stream{
-		{"device-injector", "main", c.Pick(500, 6000)},
-		{"device-injector", "malformed", c.Pick(300, 3000)},
-		{"device-injector", "prefix", c.Pick(300, 3000)},
-		{"ulimit-adjuster", "main", c.Pick(400, 5000)},
-		{"ulimit-adjuster", "errors", c.Pick(300, 3000)},
-		{"ulimit-adjuster", "prefix", c.Pick(200, 2000)},
+		{"device-injector", "main", c.Pick(120, 5000)},
+		{"device-injector", "malformed", c.Pick(80, 3000)},
+		{"device-injector", "prefix", c.Pick(80, 3000)},
+		{"ulimit-adjuster", "main", c.Pick(120, 4000)},
+		{"ulimit-adjuster", "errors", c.Pick(90, 3000)},
+		{"ulimit-adjuster", "prefix", c.Pick(60, 2000)},
 	}
 	failing := 0
 	for _, s := range streams {
@@ -741,7 +771,7 @@ func driveInjectors(c *hx.Ctx) error {
 		if short == "ul" {
 			typ, corr, holds = "ul_case", "corr_ul", "holds_ul"
 		}
-		sh := c.NewShard(short+"_"+s.name, imports, typ, corr, holds, 500)
+		sh := c.NewShard(short+"_"+s.name, imports, typ, corr, holds, 25)
 		for i := 0; i < s.n; i++ {
 			var cs *injCase
 			if short == "inj" {
